@@ -361,6 +361,11 @@ Proof. vm_compute. reflexivity. Qed.
 
 (* the discovery theorems on a real-size layout are exercised by the correspondence run
    (images of 384 KiB and more); here the probe arithmetic at the first anchor *)
+(* images beyond 16 MiB: the first anchor in a 24 MiB image and the last in a 32 MiB image sit above 2^24 *)
+Example ex_probe_big : phys_to_off 25165824 4294574080 = 24772608 /\
+  phys_to_off 33554432 4278321152 = 16908288 /\ phys_to_off 33554432 4294574080 = 33161216.
+Proof. vm_compute. repeat split; reflexivity. Qed.
+
 Example ex_probe : phys_to_off 393216 4294574080 = 0 /\ phys_to_off 393215 4294574080 = two64 - 1 /\
   phys_to_off 16777216 4278321152 = 131072.
 Proof. vm_compute. repeat split; reflexivity. Qed.
